@@ -24,6 +24,7 @@ import (
 
 // snap is the content of blobs/<alg>/* plus the two root files.
 type snap struct {
+	other  map[string]bool   // every other regular file anywhere under the layout (relative path), except index.json and oci-layout
 	files  map[string]string // "<alg>/<name>" -> sha256 of the file content
 	index  string            // bytes of index.json ("" if absent)
 	marker string            // bytes of oci-layout
@@ -39,7 +40,22 @@ func fileHash(p string) (string, bool) {
 }
 
 func takeSnap(dir string) snap {
-	s := snap{files: map[string]string{}}
+	s := snap{files: map[string]string{}, other: map[string]bool{}}
+	filepath.WalkDir(dir, func(p string, d os.DirEntry, err error) error {
+		if err != nil || d.IsDir() {
+			return nil
+		}
+		rel, rerr := filepath.Rel(dir, p)
+		if rerr != nil || rel == "index.json" || rel == "oci-layout" {
+			return nil
+		}
+		// blobs/<alg>/<name> is listed in files
+		if parts := strings.Split(filepath.ToSlash(rel), "/"); len(parts) == 3 && parts[0] == "blobs" {
+			return nil
+		}
+		s.other[filepath.ToSlash(rel)] = true
+		return nil
+	})
 	if b, err := os.ReadFile(filepath.Join(dir, "index.json")); err == nil {
 		s.index = string(b)
 	}
